@@ -14,7 +14,7 @@ from vlib import ToolError, log, q_to_fraction, run_harness_stable_day, tlc, tlc
 MONTHS = ["january", "february", "march", "april", "may", "june", "july", "august", "september", "october", "november", "december"]
 
 
-def text_of(v):
+def text_of(v, lang="en"):
     k = v["k"]
     if k == "num":
         return render.number_text(q_to_fraction(v["q"]))
@@ -27,18 +27,21 @@ def text_of(v):
     if k == "dur":
         parts = []
         d, s = v["d"], v["s"]
+        words = render.duration_words(lang)
         for n, w in ((d, "day"), (s // 3600, "hour"), (s % 3600 // 60, "minute"), (s % 60, "second")):
             if n:
-                parts.append("%d %s%s" % (n, w, "" if n == 1 else "s"))
+                parts.append("%d %s" % (n, (w + ("" if n == 1 else "s")) if lang == "en" else words[w][0]))
         return " ".join(parts)
     if k == "time":
         w = (v["sod"] + v["off"] * 60) % 86400
         return "%02d:%02d%s" % (w // 3600, w % 3600 // 60, "" if v["zone"] == "UTC" else " " + v["zone"])
     if k == "date":
         d = datetime.date(1970, 1, 1) + datetime.timedelta(days=v["day"])
-        return "%d %s %d" % (d.day, MONTHS[d.month - 1], d.year)     # d/m/y next to a `/` operator would be another line
+        return "%d %s %d" % (d.day, MONTHS[d.month - 1] if lang == "en" else render.month_names(lang)[d.month]["long"][0], d.year)     # d/m/y next to a `/` operator would be another line
     if k == "datetime":
         d = datetime.date(1970, 1, 1) + datetime.timedelta(days=v["d"])
+        if lang != "en":
+            return None          # `at` is an English rule
         return "%d %s %d at %02d:%02d" % (d.day, MONTHS[d.month - 1], d.year, v["s"] // 3600, v["s"] % 3600 // 60)
     raise ToolError("kinds: no spelling for %r" % (v,))
 
@@ -53,10 +56,16 @@ def run(rep, quick):
     cells = sorted(g.cases, key=lambda c: json.dumps(c, sort_keys=True))
     cfg = render.cfg_with()
     steps = []
-    for c in cells:
-        a, b = text_of(c["a"]), text_of(c["b"])
-        steps.append({"op": "execute", "lang": "en", "text": "%s %s %s" % (a, c["op"], b)})
-        steps.append({"op": "execute", "lang": "en", "text": "zorp = %s\nblip = %s\nzorp %s blip" % (a, b, c["op"])})
+    owner = []
+    for ci, c in enumerate(cells):
+        for lang in render.languages():
+            a, b = text_of(c["a"], lang), text_of(c["b"], lang)
+            if a is None or b is None:
+                continue
+            steps.append({"op": "execute", "lang": lang, "text": "%s %s %s" % (a, c["op"], b)})
+            owner.append((ci, "line", lang))
+            steps.append({"op": "execute", "lang": lang, "text": "zorp = %s\nblip = %s\nzorp %s blip" % (a, b, c["op"])})
+            owner.append((ci, "variables", lang))
     cases = [{"id": "kinds%d" % i, "cfg": cfg, "steps": steps[i:i + 40]} for i in range(0, len(steps), 40)]
     obs = run_harness_stable_day(cases, "kinds", jobs=8)
     flat = [st for o in obs for st in (o.get("steps") or [])]
@@ -65,9 +74,10 @@ def run(rep, quick):
     drift = []
     by = {}
     agree = 0
-    for i, c in enumerate(cells):
-        for j, how in ((0, "line"), (1, "variables")):
-            st = flat[2 * i + j]
+    for si, (ci, how, lang) in enumerate(owner):
+        c = cells[ci]
+        for _ in (0,):
+            st = flat[si]
             ss = proj.slots_of_step(st)
             slot = ss[1][-1] if ss and ss[1] else None
             if slot is not None:
@@ -77,11 +87,11 @@ def run(rep, quick):
             if ok:
                 agree += 1
             else:
-                drift.append({"text": steps[2 * i + j]["text"], "how": how, "cell": [c["a"]["k"], c["op"], c["b"]["k"]], "fixed_by": c["by"],
+                drift.append({"text": steps[si]["text"], "lang": lang, "how": how, "cell": [c["a"]["k"], c["op"], c["b"]["k"]], "fixed_by": c["by"],
                               "model": c["slot"], "observed": slot if slot is not None else st.get("outcome")})
     for d in drift[:5]:
         log("    [kind algebra, non-gating] %s" % json.dumps(d, ensure_ascii=False)[:400])
-    out = {"pairs": len(cells), "evaluations": 2 * len(cells), "agree": agree, "drift": len(drift),
+    out = {"pairs": len(cells), "evaluations": len(owner), "languages": render.languages(), "agree": agree, "drift": len(drift),
            "by_status": {k: {"agree": v[0], "drift": v[1]} for k, v in sorted(by.items())}, "examples": drift[:5]}
     rep.extra["kind_algebra"] = out
     return out
